@@ -37,7 +37,7 @@ def run(chk):
     chk.trusted_base = TRUSTED
     chk.assumptions = ["group weights positive", "bases positive"]
     chk.rule = ("tables with string and numeric keys, unsorted keys, singleton groups, 1-2 grouping columns, single/multiple feature "
-                "columns, positive weights, bases {2, e, 10, None}; bins as edge vectors and bins = 0; non-trivial = distinct table "
+                "columns, positive weights, bases {2, e, 10, None, 1/2, 1/10, 3}; unique and repeated row labels; bins as edge vectors and bins = 0; non-trivial = distinct table "
                 "with at least one group of >= 2 members")
     chk.build_and_audit()
     rng = chk.rng
@@ -52,7 +52,9 @@ def run(chk):
         keypool = [10, 2, 33, 4][:nk] if numeric else ["b", "a", "zz", "C"][:nk]
         keys = [rng.choice(keypool) for _ in range(n)]
         feat = [rng.choice(vals[:rng.randint(1, 5)]) for _ in range(n)]
-        df = pd.DataFrame({"g": keys, "s": feat, "t": [rng.choice(["x", "y"]) for _ in range(n)]}, index=rng.sample(range(100), n))
+        # row labels: unique in any order, or REPEATED across groups (tables concatenated without ignore_index): rows are rows
+        idx = rng.sample(range(100), n) if rng.random() < 0.6 else [rng.randrange(max(2, n // 2)) for _ in range(n)]
+        df = pd.DataFrame({"g": keys, "s": feat, "t": [rng.choice(["x", "y"]) for _ in range(n)]}, index=idx)
         # the model sorts string keys; numeric keys are zero-padded so that the string order equals the numeric order
         skey = (lambda k: f"{k:06d}") if numeric else (lambda k: k)
         tbl = [[skey(k), v] for k, v in zip(keys, feat)]
@@ -102,7 +104,7 @@ def run(chk):
             checks.append(("pcDelta_grouped*", {**meta, "bins": bins}, (real_g, real_c, real_sq, df, sorted_keys), nt))
             ops.append({"op": "group_rows", "tbl": tbl})
         # entropies
-        base = rng.choice([2.0, math.e, 10.0, None])
+        base = rng.choice([2.0, math.e, 10.0, None, 0.5, 0.1, 3])      # a base below 1 is a base too (the entropy changes sign)
         checks.append(("entropy", {**meta, "base": base}, (df, base), nt))
         ops.append({"op": "pc1", "xs": feat if len(feat) >= 2 else ["a", "a"]})
 
@@ -191,13 +193,14 @@ def run(chk):
             if len(df) < 2:
                 continue
             lb = 1.0 if base is None else math.log(base)
+            inf_ = float("inf") if lb > 0 else float("-inf")      # -log_base(0): +inf for a base above 1, -inf below
             p = st.pc(df["s"])
             pj = st.pc_joint(df, ["s", "t"])
             pcnd = st.pc_conditional(df, "g", "s")
-            tests = [("renyi2", lambda: en.renyi2_entropy(df, "s", base=base), -math.log(p) / lb if p > 0 else float("inf")),
-                     ("renyi2-joint", lambda: en.renyi2_entropy(df, ["s", "t"], base=base), -math.log(pj) / lb if pj > 0 else float("inf")),
+            tests = [("renyi2", lambda: en.renyi2_entropy(df, "s", base=base), -math.log(p) / lb if p > 0 else inf_),
+                     ("renyi2-joint", lambda: en.renyi2_entropy(df, ["s", "t"], base=base), -math.log(pj) / lb if pj > 0 else inf_),
                      ("renyi2-conditional", lambda: en.renyi2_entropy(df, "s", by="g", base=base),
-                      (-math.log(pcnd) / lb if pcnd > 0 else float("inf")) if not (isinstance(pcnd, float) and math.isnan(pcnd)) else float("nan"))]
+                      (-math.log(pcnd) / lb if pcnd > 0 else inf_) if not (isinstance(pcnd, float) and math.isnan(pcnd)) else float("nan"))]
             if len(df) >= 4 and p > 0:
                 sd = st.stdpc(df["s"])
                 tests.append(("stdrenyi2", lambda: en.stdrenyi2_entropy(df, "s", base=base), sd / (p * lb)))
